@@ -20,6 +20,9 @@
 #        VIOLATION at `ensure tb (b) index unique(c) in tb(b) index(a)` (FkToHere entry missing)
 #   M9 updateOtherFk: `ix.Fk.IIndex = iindex` -> `ix.Fk.IIndex = i` (wrong IIndex written to referencing tables)
 #        VIOLATION at `alter ta drop index(b)`
+# M1..M9 were re-run after the quick tier was trimmed (25 random walks, 15 % probe sample, link probes always).
+# Seeded change seeded/C21-dropfkeys-aliases-live (dropFkeys filters FkToHere in place, visible only when a
+# request is refused after dropFkeys ran): VIOLATION at `rename tb to tz` of the 'chain' base schemas.
 # Hand corruption of a good trace (anti-vacuity): FkToHere.iidx + 1 -> rejected at that line; one scanned row
 # value + 1 -> rejected at that line; ok of a failed rename flipped -> rejected at that line; one successful
 # alter create dropped from the trace -> rejected at the following line.
